@@ -285,7 +285,7 @@ def run_one(sim, params):
         after = 0
         while n < 1200 and after < 6 and not ended.is_set():
             n += 1
-            kind = sim.choose("opener.kind", 3) if state["broken"] else n % 3
+            kind = sim.choose("opener.kind", 5) if state["broken"] else n % 5
             blocking = state["broken"]
             if blocking:
                 after += 1
@@ -312,6 +312,15 @@ def run_one(sim, params):
                         s.accept()
                     else:
                         s.poll("recv", 0.004)
+                finally:
+                    s.close()
+            elif kind in (3, 4):
+                s = nfc.llcp.Socket(llc, nfc.llcp.LOGICAL_DATA_LINK if kind == 3 else nfc.llcp.llc.RAW_ACCESS_POINT)
+                try:
+                    inflight[name] = "bind(new %s)" % ("ldl" if kind == 3 else "raw")
+                    s.bind()
+                    inflight[name] = "poll(recv,%s)(new %s)" % ("None" if blocking else "t", "ldl" if kind == 3 else "raw")
+                    s.poll("recv", None if blocking else 0.004)
                 finally:
                     s.close()
             else:
@@ -396,8 +405,9 @@ def run_one(sim, params):
             if sim.chance("line.hot", 0.5):
                 # half of these runs concentrate the pre-emption inside the termination / shutdown / close paths
                 hp = sim.pick("line.hot.p", [0.1, 0.3])
-                k.line_hot = dict((fn, hp) for fn in ("terminate", "shutdown", "close", "remove_socket", "bind", "_bind_by_none",
-                                                      "_bind_by_addr", "_bind_by_name"))
+                ending = ("terminate", "shutdown", "close", "remove_socket", "bind", "_bind_by_none", "_bind_by_addr", "_bind_by_name")
+                waiting = ("poll", "recv", "send", "accept", "connect", "recvfrom", "sendto")
+                k.line_hot = dict((fn, hp) for fn in sim.pick("line.hot.set", [ending, waiting, ending + waiting]))
         m = k.spawn(main, name="main")
         try:
             try:
